@@ -415,6 +415,9 @@ class Array(Node):
         """
         Returns True if a dim is linear, else returns False
         """
+        # string dim vectors are never linear
+        if len(dim) > 0 and not isinstance(dim[0],Number):
+            return False
         try:
             dim_expanded = self._unpack_dim(dim[:2],length)
             return np.array_equal(dim,dim_expanded)
@@ -534,6 +537,9 @@ class Array(Node):
             # compress the dim vector if it's linear
             if self._dim_is_linear(dim,self.shape[n]):
                 dim = dim[:2]
+            # string dim vectors are written as utf-8, like slice labels
+            elif isinstance(dim[0],str):
+                dim = [s.encode('utf-8') for s in dim]
             # write
             dset = grp.create_dataset(
                 f"dim{n}",
@@ -587,7 +593,10 @@ class Array(Node):
         dim_names = []
         for n in range(normal_dims):
             dim_dset = group[f"dim{n}"]
-            dims.append(dim_dset[:])
+            dim = dim_dset[:]
+            if dim.dtype.kind in 'OS':
+                dim = [s.decode('utf-8') for s in dim]
+            dims.append(dim)
             dim_units.append(dim_dset.attrs['units'])
             dim_names.append(dim_dset.attrs['name'])
 
